@@ -50,6 +50,16 @@ Theorem c10_released_at_quiescence : forall ops k, Forall valid_op ops -> closed
 Proof. rewrite tie_params. exact released_at_quiescence. Qed.
 Print Assumptions c10_released_at_quiescence.
 
+(* 3'. and that state is always reached: from any reachable open state, once everything in flight has been
+       consumed, the peer drops every proxy of the objects ks and the owner processes the release notices,
+       the owner's connection references none of them (no leak at quiescence after arbitrarily long histories) *)
+Theorem c10_release_after_drop : forall ops ks, Forall valid_op ops -> closed (run Pg ops) = false ->
+  let s := run Pg (ops ++ [Sync; Sync] ++ map DropAll ks ++ [Sync]) in
+  closed s = false /\ qba s = [] /\ norefs (qab s) /\
+  forall k, In k ks -> prox s k = None /\ slot s k = None /\ alive s k = appref s k.
+Proof. rewrite tie_params. exact release_after_drop. Qed.
+Print Assumptions c10_release_after_drop.
+
 (* 4. closing (by either side) releases everything, after any history at all -- also one with a misbehaving
       peer -- and nothing comes back afterwards *)
 Theorem c10_close_releases : forall ops b more k,
@@ -90,6 +100,16 @@ Example c10_quiescence_reached :
   Forall valid_op ops /\ closed s = false /\ refs (qab s) 0%nat = 0 /\ dels (qba s) 0%nat = 0 /\ prox s 0%nat = None /\
   slot s 0%nat = None /\ alive s 0%nat = false /\ errs s = O /\
   slot (run Pg (crossing ++ [Use 0 [0] true; Sync; Sync]%nat)) 0%nat = Some 1.
+Proof. cbn zeta. split; [repeat constructor|]. vm_compute. repeat split; reflexivity. Qed.
+
+(* dropping and draining from a state with references, proxies and notices in flight, three objects *)
+Example c10_release_after_drop_nontrivial :
+  let ops := [Send [0; 1; 1; 2]; DeliverAB; DropAll 1; Send [1; 2]; Use 0 [2] true; DeliverBA; DeliverBA]%nat in
+  let s := run Pg ops in
+  Forall valid_op ops /\ closed s = false /\ slot s 0%nat = Some 0 /\ slot s 1%nat = Some 0 /\ slot s 2%nat = Some 1 /\
+  List.length (qab s) = 2%nat /\ List.length (qba s) = 1%nat /\
+  let s' := run Pg (ops ++ [Sync; Sync] ++ map DropAll [0; 1; 2]%nat ++ [Sync]) in
+  slot s' 0%nat = None /\ slot s' 1%nat = None /\ slot s' 2%nat = None.
 Proof. cbn zeta. split; [repeat constructor|]. vm_compute. repeat split; reflexivity. Qed.
 
 (* a proxy held by the peer is usable *)
